@@ -50,7 +50,7 @@ PROPS = {
     "C12": {"jobs": [enum("TestC12Classes"),
                      # the drop-all / drain / attach sequence on a real AF_PACKET handle in a private network namespace
                      enum("TestC12KernelAttach"), rapid("TestC12Random", 20000, 300000), rapid("TestC12EndToEnd", 1500, 10000)]},
-    "C13": {"jobs": [enum("TestC13KernelSink"),
+    "C13": {"jobs": [enum("TestC13KernelSink"), enum("TestC13KernelNonIPFrames"),
                      {"kind": "script", "name": "C13Kernel", "run": "C13Kernel", "cmd": ["python3", "c13_kernel.py"], "timeout_quick": 600, "timeout_thorough": 2400},
                      # "several traceroutes running at once" on the real-socket path: a wrong result there needs an
                      # interleaving of microseconds (two runs attaching their filters at the same moment), which the
@@ -65,7 +65,10 @@ PROPS = {
                      {"kind": "script", "name": "C13KernelRace", "run": "C13KernelRace", "cmd": ["python3", "c13_kernel.py"], "env": {"VERIF_C13_RACE": "1"}, "timeout_quick": 900, "timeout_thorough": 2400}]},
     "C15": {"jobs": [rapid("TestC15", 2500, 8000)]},
     "C16": {"jobs": [rapid("TestC16", 20000, 120000), enum("TestC16ConcurrentIDs")]},
-    "C17": {"jobs": [rapid("TestC17Docs", 10000, 60000), rapid("TestC17Request", 1000, 4000)]},
+    "C17": {"jobs": [rapid("TestC17Docs", 10000, 60000), rapid("TestC17Request", 1000, 4000),
+                     # the command line's own handling of --skip-private-hops (flag order, spellings), on a real path with private routers
+                     {"kind": "script", "name": "CliFlagsC17", "run": "CliFlagsC17", "cmd": ["python3", "cli_flags.py"], "env": {"CLI_FLAGS_PROP": "C17"}, "timeout_quick": 600, "timeout_thorough": 1800}]},
     "C18": {"jobs": [rapid("TestC18Enrich", 5000, 30000), rapid("TestC18Cache", 4000, 30000), rapid("TestC18Providers", 4000, 20000)]},
-    "C19": {"jobs": [rapid("TestC19", 3000, 8000), enum("TestC19Extremes"), enum("TestC19Spellings"), enum("TestC19Defaults")]},
+    "C19": {"jobs": [rapid("TestC19", 3000, 8000), enum("TestC19Extremes"), enum("TestC19Spellings"), enum("TestC19Defaults"),
+                     {"kind": "script", "name": "CliFlagsC19", "run": "CliFlagsC19", "cmd": ["python3", "cli_flags.py"], "env": {"CLI_FLAGS_PROP": "C19"}, "timeout_quick": 600, "timeout_thorough": 1800}]},
 }
